@@ -236,6 +236,7 @@ type c02 struct {
 	dir   string
 	nfile int
 	valid []emitted // valid instances, for the malformed stream and the end-to-end cases
+	blobs [][]byte  // valid public key blobs, mutated inside intact containers
 }
 type emitted struct {
 	op, tag string
@@ -271,6 +272,9 @@ func sshOracle(blob []byte) Sx {
 }
 
 func (g *c02) sshblob(tag string, blob []byte, comment string, spec Sx) {
+	if len(spec.(SL)) > 0 {
+		g.blobs = append(g.blobs, blob)
+	}
 	in := SL{SB(blob), S(comment), sshOracle(blob), spec}
 	g.c.Emit("sshblob:"+tag, in, attrsObs(func() ([]file.Attribute, error) {
 		pk, err := ssh.ParsePublicKey(blob)
@@ -901,6 +905,18 @@ func mutate(r *Rng, d []byte) []byte {
 func (g *c02) malformed(per int) {
 	r := g.c.R
 	valid := g.valid
+	// damaged public key blobs on their own and inside intact PuTTY / OpenSSH containers
+	for _, b := range g.blobs {
+		if len(b) > 700 && r.Intn(4) != 0 {
+			continue
+		}
+		for k := 0; k < per; k++ {
+			d := mutate(r, b)
+			g.sshblob("mut", d, "c", noSpec)
+			g.ppk("mut-blob", ppkText(ppkMeta{version: 3, typ: "ssh-rsa", encryption: "none", comment: "c"}, d, r.Bytes(16), r.Bytes(32)), noSpec)
+			g.ossh("mut-blob", opensshPriv("aes256-ctr", "bcrypt", kdfOpts(r.Bytes(16), 16), d, r.Bytes(32)), noSpec)
+		}
+	}
 	for _, e := range valid {
 		if len(e.data) > 1500 && r.Intn(4) != 0 {
 			continue
